@@ -6,7 +6,9 @@ package main
 // equalities) and the generic half (c03set.go: cty/set over int rules).
 
 import (
+	"fmt"
 	"math/big"
+	"strings"
 
 	"github.com/zclconf/go-cty/cty"
 )
@@ -98,6 +100,18 @@ func runC03(ctx *Ctx) {
 		}
 		c03DoPool(ctx, c03Pool{"fixed/hash-delimiters:tuple", tups}, 2)
 		c03DoPool(ctx, c03Pool{"fixed/hash-delimiters:map", maps}, 2)
+	}
+	// 2a'. compound members that differ only deep inside long strings of one length (a seeded change hashed only the
+	// first 64 bytes and the length: the members tied in Less and kept their insertion order)
+	for _, n := range []int{16, 32, 64, 128, 256, 1024, 4096} {
+		prefix := strings.Repeat("arn:aws:iam::123456789012:role/", n/31+1)[:n]
+		var ls, os []cty.Value
+		for _, tail := range []string{"aaaa", "aaab", "baaa", "zzzz"} {
+			ls = append(ls, cty.ListVal([]cty.Value{cty.StringVal(prefix + tail)}))
+			os = append(os, cty.ObjectVal(map[string]cty.Value{"id": cty.StringVal(prefix + tail), "n": cty.Zero}))
+		}
+		c03DoPool(ctx, c03Pool{fmt.Sprintf("fixed/long-strings-%d:list", n), ls}, 2)
+		c03DoPool(ctx, c03Pool{fmt.Sprintf("fixed/long-strings-%d:object", n), os}, 2)
 	}
 	c03DoPool(ctx, c03Pool{"fixed/bools", []cty.Value{cty.True, cty.False, cty.NullVal(cty.Bool)}}, 2)
 	// 2b. the model's copy of strconv's printable-rune table (hash bytes of strings are %q-quoted):
